@@ -50,6 +50,17 @@ Definition run_progs : list (list op) := map (fun p => map fst (snd p)) gen_run_
 Lemma sites_disciplined : disciplined guard run_progs = true.
 Proof. vm_compute. reflexivity. Qed.
 
+(* the hooks this check itself calls from many goroutines (instrumentation, build tag verif) obey the discipline too;
+   other families' hooks are not part of the shipped code and are not judged here *)
+Definition own_hook (n : string) : bool :=
+  String.eqb n "VerifFindType" || String.eqb n "VerifTypeCache" || String.eqb n "VerifPkgCache".
+
+Lemma own_hooks_disciplined :
+  forallb (fun p : string * list (op * N) => negb (own_hook (fst p)) || ok guard [] (map fst (snd p))) gen_hook_paths
+  && forallb (fun n => existsb (fun p : string * list (op * N) => String.eqb (fst p) n) gen_hook_paths)
+             ["VerifFindType"; "VerifTypeCache"; "VerifPkgCache"]%string = true.
+Proof. vm_compute. reflexivity. Qed.
+
 (* the two caches are really guarded (the table above did not silently fall back) *)
 Lemma caches_guarded :
   match field_named "engineState.typeByFQN", field_named "engineState.pkgCache" with
